@@ -4,6 +4,8 @@ Open Scope string_scope. Open Scope list_scope.
 
 Lemma bytes_eqb_eq a b : bytes_eqb a b = true <-> a = b.
 Proof. apply list_eqb_spec. intros; apply N.eqb_eq. Qed.
+Lemma bytes_eqb_refl a : bytes_eqb a a = true.
+Proof. apply bytes_eqb_eq. reflexivity. Qed.
 
 Lemma assoc_b_in {A} x (l : list (list N * A)) v : assoc_b x l = Some v -> In (x, v) l.
 Proof.
@@ -20,14 +22,87 @@ Proof.
   - right; apply IH; exact H.
 Qed.
 
+(* AdvertiseCachedFile: afterwards the name holds the old content if there was
+   one, else the new content; nothing else changes *)
+Lemma adv_s_in {A} n (v : A) l m w : In (m, w) (adv_s n v l) -> In (m, w) l \/ (m = n /\ w = v /\ assoc_s n l = None).
+Proof.
+  unfold adv_s. destruct (assoc_s n l) eqn:E; [left; assumption|].
+  intros [H|H]; [inversion H; subst; right; auto | left; exact H].
+Qed.
+Lemma adv_b_in {A} n (v : A) l m w : In (m, w) (adv_b n v l) -> In (m, w) l \/ (m = n /\ w = v /\ assoc_b n l = None).
+Proof.
+  unfold adv_b. destruct (assoc_b n l) eqn:E; [left; assumption|].
+  intros [H|H]; [inversion H; subst; right; auto | left; exact H].
+Qed.
+Lemma adv_s_get {A} n (v : A) l : exists w, assoc_s n (adv_s n v l) = Some w /\ (In (n, w) l \/ w = v).
+Proof.
+  unfold adv_s. destruct (assoc_s n l) as [w|] eqn:E.
+  - exists w. rewrite E. split; [reflexivity | left; apply assoc_s_in; exact E].
+  - exists v. simpl. rewrite String.eqb_refl. split; [reflexivity | right; reflexivity].
+Qed.
+Lemma adv_b_get {A} n (v : A) l : exists w, assoc_b n (adv_b n v l) = Some w /\ (In (n, w) l \/ w = v).
+Proof.
+  unfold adv_b. destruct (assoc_b n l) as [w|] eqn:E.
+  - exists w. rewrite E. split; [reflexivity | left; apply assoc_b_in; exact E].
+  - exists v. simpl. rewrite bytes_eqb_refl. split; [reflexivity | right; reflexivity].
+Qed.
+
+(* ---- the deciders of Spec ------------------------------------------------------- *)
+Lemma fkind_eqb_eq a b : fkind_eqb a b = true <-> a = b.
+Proof. destruct a, b; simpl; split; intro H; try reflexivity; try discriminate. Qed.
+Lemma recsum_eqb_eq a b : recsum_eqb a b = true <-> a = b.
+Proof.
+  destruct a as [| |x], b as [| |y]; simpl; split; intro H; try reflexivity; try discriminate.
+  - apply bytes_eqb_eq in H. subst. reflexivity.
+  - inversion H. apply bytes_eqb_refl.
+Qed.
+Lemma dfile_eqb_eq a b : dfile_eqb a b = true <-> a = b.
+Proof.
+  unfold dfile_eqb. destruct a as [n1 k1 b1 s1 l1], b as [n2 k2 b2 s2 l2]; simpl.
+  rewrite !andb_true_iff, !String.eqb_eq, fkind_eqb_eq, bytes_eqb_eq, recsum_eqb_eq.
+  split; [intros ((((-> & ->) & ->) & ->) & ->); reflexivity | intro H; inversion H; auto].
+Qed.
+Lemma control_eqb_eq a b : control_eqb a b = true <-> a = b.
+Proof.
+  unfold control_eqb. destruct a as [r1 d1 h1], b as [r2 d2 h2]; simpl.
+  rewrite !andb_true_iff, String.eqb_eq, bytes_eqb_eq, (list_eqb_spec String.eqb String.eqb_eq).
+  split; [intros ((-> & ->) & ->); reflexivity | intro H; inversion H; auto].
+Qed.
+Lemma option_eqb_eq {A} (eqb : A -> A -> bool) (H : forall x y, eqb x y = true <-> x = y) a b :
+  option_eqb eqb a b = true <-> a = b.
+Proof.
+  destruct a, b; simpl; split; intro E; try reflexivity; try discriminate.
+  - apply H in E. subst. reflexivity.
+  - inversion E. apply H. reflexivity.
+Qed.
 
 Section WithOracles.
   Variable sha1 : list N -> list N.
   Variable sha256 : list N -> list N.
   Variable b64 : string -> option (list N).
-  Notation Chain := (Chain sha1 sha256 b64).
+  Variable first_name : list N -> option string.
+  Variable ctl_view : list N -> option (string * list string).
+  Variable gunzip : list N -> option (list N).
+  Variable untar : list N -> option (list dfile).
+  Notation Chain := (Chain sha1 sha256 b64 ctl_view gunzip untar).
   Notation h_sum := (h_sum b64).
   Notation file_ok := (file_ok sha1).
+  Notation mk_ctl := (mk_ctl ctl_view).
+  Notation dat_view := (dat_view gunzip untar).
+  Notation cut := (cut first_name).
+  Notation cut_with := (cut_with first_name).
+  Notation sig2 := (sig2 first_name).
+  Notation expand_apk := (expand_apk sha1 sha256 first_name ctl_view gunzip untar).
+  Notation expand_apk_with := (expand_apk_with sha1 sha256 first_name ctl_view gunzip untar).
+  Notation cached_package := (cached_package b64 ctl_view gunzip untar).
+  Notation cache_package := (cache_package untar).
+  Notation expand_uncached := (expand_uncached sha1 sha256 b64 first_name ctl_view gunzip untar).
+  Notation expand_package := (expand_package sha1 sha256 b64 first_name ctl_view gunzip untar).
+
+  Lemma mk_ctl_raw raw c : mk_ctl raw = Some c -> c_raw c = raw.
+  Proof. unfold PkgAuth.mk_ctl. destruct (ctl_view raw) as [[d dhs]|]; [|discriminate]. intro H; inversion H; reflexivity. Qed.
+  Lemma mk_ctl_fix raw c : mk_ctl raw = Some c -> mk_ctl (c_raw c) = Some c.
+  Proof. intro H. rewrite (mk_ctl_raw _ _ H). exact H. Qed.
 
   Lemma file_ok_b_iff f : file_ok_b sha1 f = true <-> file_ok f.
   Proof.
@@ -39,30 +114,83 @@ Section WithOracles.
     - destruct (H eq_refl) as [_ H']. apply bytes_eqb_eq. apply H'. reflexivity.
   Qed.
 
-  Lemma chain_tags_iff sfx h x : chain_tags sha1 sha256 b64 sfx h x = [] <-> Chain h x.
+  Lemma chain_tags_iff sfx h x : chain_tags sha1 sha256 b64 ctl_view gunzip untar sfx h x = [] <-> Chain h x.
   Proof.
     unfold chain_tags, PkgAuthSpec.Chain.
     assert (control_ok_b sha1 b64 h x = true <-> h_sum h = Some (sha1 (c_raw (x_ctl x)))) as C.
-    { unfold control_ok_b. destruct (h_sum h) as [w|]; simpl; [|split; discriminate].
-      rewrite bytes_eqb_eq. split; intro H; [subst; reflexivity | inversion H; reflexivity]. }
+    { unfold control_ok_b. apply option_eqb_eq. exact bytes_eqb_eq. }
+    assert (control_file_ok_b ctl_view x = true <->
+            x_ctl_file x = c_raw (x_ctl x) /\ mk_ctl (c_raw (x_ctl x)) = Some (x_ctl x)) as Cf.
+    { unfold control_file_ok_b. rewrite andb_true_iff, bytes_eqb_eq, (option_eqb_eq control_eqb control_eqb_eq). reflexivity. }
     assert (datahash_ok_b sha256 x = true <->
             forall dh, In dh (c_datahash (x_ctl x)) -> dh <> "" -> dh = hex (sha256 (d_raw (x_dat x)))) as Dh.
     { unfold datahash_ok_b. rewrite forallb_forall. split; intros H dh Hin.
       - intro NE. specialize (H dh Hin). apply orb_true_iff in H. destruct H as [H|H]; apply String.eqb_eq in H; congruence.
       - apply orb_true_iff. destruct (String.eqb dh "") eqn:E; [left; reflexivity|right].
         apply String.eqb_eq. apply H; [exact Hin|]. intro K; subst. discriminate. }
+    assert (covered_b gunzip untar x = true <-> dat_view (d_raw (x_dat x)) = Some (d_files (x_dat x))) as Cv.
+    { unfold covered_b. apply option_eqb_eq. apply list_eqb_spec. exact dfile_eqb_eq. }
     assert (files_ok_b sha1 x = true <-> forall f, In f (d_files (x_dat x)) -> file_ok f) as F.
     { unfold files_ok_b. rewrite forallb_forall. split; intros H f Hf; apply file_ok_b_iff; apply H; exact Hf. }
-    destruct (control_ok_b sha1 b64 h x) eqn:E1; destruct (datahash_ok_b sha256 x) eqn:E2; destruct (files_ok_b sha1 x) eqn:E3;
-      simpl; split; intro H; try discriminate; try reflexivity.
-    - split; [apply C; reflexivity|]. split; [apply Dh; reflexivity | apply F; reflexivity].
-    - destruct H as (_ & _ & H). apply F in H. discriminate.
-    - destruct H as (_ & H & _). apply Dh in H. discriminate.
-    - destruct H as (_ & H & _). apply Dh in H. discriminate.
-    - destruct H as (H & _). apply C in H. discriminate.
-    - destruct H as (H & _). apply C in H. discriminate.
-    - destruct H as (H & _). apply C in H. discriminate.
-    - destruct H as (H & _). apply C in H. discriminate.
+    destruct (control_ok_b sha1 b64 h x) eqn:E1; destruct (control_file_ok_b ctl_view x) eqn:E2;
+      destruct (datahash_ok_b sha256 x) eqn:E3; destruct (covered_b gunzip untar x) eqn:E4; destruct (files_ok_b sha1 x) eqn:E5;
+      simpl; split; intro H; try discriminate; try reflexivity;
+      try (destruct H as (H1 & H2 & H3 & H4 & H5 & H6);
+           first [ apply C in H1; discriminate H1
+                 | (assert (false = true) as K by (apply Cf; split; assumption); discriminate K)
+                 | apply Dh in H4; discriminate H4
+                 | apply Cv in H5; discriminate H5
+                 | apply F in H6; discriminate H6 ]).
+    destruct (proj1 Cf eq_refl) as [A B].
+    split; [apply C; reflexivity|]. split; [exact A|]. split; [exact B|].
+    split; [apply Dh; reflexivity|]. split; [apply Cv; reflexivity | apply F; reflexivity].
+  Qed.
+
+  (* ---- the cut ---------------------------------------------------------------------
+     ExpandApk accounts for every byte of the served stream: signature member (if
+     any), the ONE member hashed as control section, and ALL remaining members as
+     data section; nothing may follow. *)
+  Lemma cut_covers a s u :
+    cut_with a s = Some u ->
+    s_trail s = [] /\
+    List.concat (s_members s) = u_sig u ++ u_ctl u ++ u_dat u /\
+    exists pre rest, s_members s = pre ++ u_ctl u :: rest /\
+                     ((pre = [] /\ u_sig u = []) \/ pre = [u_sig u]) /\
+                     u_dat u = List.concat rest /\ rest <> [].
+  Proof.
+    unfold PkgAuth.cut_with. destruct (s_trail s) as [|? ?]; [|discriminate].
+    destruct (s_members s) as [|m0 rest]; [discriminate|].
+    destruct (first_name m0) as [n|]; [|discriminate].
+    destruct (String.prefix sign_prefix n).
+    - destruct rest as [|m1 [|m2 more]]; [discriminate| |].
+      + destruct a; [|discriminate]. intro H; inversion H; subst; simpl.
+        split; [reflexivity|]. split; [rewrite app_nil_r; reflexivity|].
+        exists [], [m1]. simpl. rewrite app_nil_r. split; [reflexivity|]. split; [left; auto|]. split; [reflexivity | discriminate].
+      + intro H; inversion H; subst; simpl. split; [reflexivity|]. split; [reflexivity|].
+        exists [m0], (m2 :: more). split; [reflexivity|]. split; [right; reflexivity|]. split; [reflexivity | discriminate].
+    - destruct rest as [|m1 more]; [discriminate|]. intro H; inversion H; subst; simpl.
+      split; [reflexivity|]. split; [reflexivity|]. exists [], (m1 :: more). split; [reflexivity|]. split; [left; auto|].
+      split; [reflexivity | discriminate].
+  Qed.
+
+  (* the data branch of the loop always ran (since fix 3bc1979) *)
+  Lemma cut_full s u : cut s = Some u -> u_full u = true.
+  Proof.
+    unfold PkgAuth.cut, PkgAuth.cut_with. destruct (s_trail s) as [|? ?]; [|discriminate].
+    destruct (s_members s) as [|m0 rest]; [discriminate|].
+    destruct (first_name m0) as [n|]; [|discriminate].
+    destruct (String.prefix sign_prefix n) eqn:P.
+    - destruct rest as [|m1 [|m2 more]]; [discriminate|discriminate|].
+      intro H; inversion H; reflexivity.
+    - destruct rest as [|m1 more]; [discriminate|]. intro H; inversion H; reflexivity.
+  Qed.
+
+  (* the shape of C05-F3 is refused *)
+  Lemma cut_refuses_sig2 s : sig2 s = true -> cut s = None.
+  Proof.
+    unfold PkgAuth.cut, PkgAuth.cut_with, PkgAuth.sig2. destruct (s_trail s) as [|? ?]; [|reflexivity].
+    destruct (s_members s) as [|m0 [|m1 [|m2 more]]]; try discriminate.
+    destruct (first_name m0) as [n|]; [|discriminate]. intros ->. reflexivity.
   Qed.
 
   (* ---- the three checks ------------------------------------------------------- *)
@@ -70,13 +198,12 @@ Section WithOracles.
   Proof.
     induction fs as [|g fs IH]; simpl; intros H f Hf; [destruct Hf|].
     assert (check_sums sha1 fs = true /\ file_ok g) as [H1 H2].
-    { unfold PkgAuthSpec.file_ok. destruct (f_kind g) eqn:K.
-      - destruct (f_sum g) as [| |d] eqn:S; try discriminate.
-        + split; [exact H|]. intros _. split; [discriminate | intros d E; discriminate].
-        + apply andb_true_iff in H. destruct H as [Ha Hb]. split; [exact Hb|]. intros _.
-          split; [discriminate|]. intros d' E. inversion E; subst. apply bytes_eqb_eq; exact Ha.
-      - split; [exact H | intro X; discriminate X].
-      - split; [exact H | intro X; discriminate X]. }
+    { unfold PkgAuthSpec.file_ok. destruct (f_kind g) eqn:K;
+        try (split; [exact H | intro X; discriminate X]).
+      destruct (f_sum g) as [| |d] eqn:S; try discriminate.
+      + split; [exact H|]. intros _. split; [discriminate | intros d E; discriminate].
+      + apply andb_true_iff in H. destruct H as [Ha Hb]. split; [exact Hb|]. intros _.
+        split; [discriminate|]. intros d' E. inversion E; subst. apply bytes_eqb_eq; exact Ha. }
     destruct Hf as [->|Hf]; [exact H2 | apply IH; assumption].
   Qed.
 
@@ -97,127 +224,261 @@ Section WithOracles.
     apply orb_true_iff in H2. destruct H2 as [E|E]; apply String.eqb_eq in E; congruence.
   Qed.
 
+  (* ---- ExpandApk ---------------------------------------------------------------------
+     what comes out is decoded from, and hashed over, exactly the bytes of the cut *)
+  Lemma expand_apk_spec a s e :
+    expand_apk_with a s = FOk e ->
+    exists u, cut_with a s = Some u /\
+      c_raw (e_ctl e) = u_ctl u /\ mk_ctl (u_ctl u) = Some (e_ctl e) /\ e_ch e = sha1 (u_ctl u) /\
+      e_gz e = u_dat u /\ gunzip (u_dat u) = Some (e_tar e) /\ untar (e_tar e) = Some (e_files e) /\
+      (u_full u = true -> e_dh e = sha256 (u_dat u) /\ check_sums sha1 (e_files e) = true) /\
+      (u_full u = false -> e_dh e = sha1 (u_dat u)).
+  Proof.
+    unfold PkgAuth.expand_apk_with. destruct (cut_with a s) as [u|]; [|discriminate].
+    destruct (gunzip (u_dat u)) as [t|] eqn:G; [|discriminate].
+    destruct (untar t) as [fs|] eqn:U; [|discriminate].
+    destruct (u_full u && negb (check_sums sha1 fs)) eqn:Ck; [discriminate|].
+    destruct (mk_ctl (u_ctl u)) as [c|] eqn:M; [|discriminate].
+    intro H; inversion H; subst; clear H; simpl. exists u. split; [reflexivity|].
+    split; [eapply mk_ctl_raw; exact M|]. split; [exact M|]. split; [reflexivity|].
+    split; [reflexivity|]. split; [exact G|]. split; [exact U|].
+    destruct (u_full u); simpl in Ck.
+    - split; [intros _ | discriminate]. split; [reflexivity|]. destruct (check_sums sha1 fs); [reflexivity | discriminate Ck].
+    - split; [discriminate | reflexivity].
+  Qed.
+
   (* ---- the on-disk cache -------------------------------------------------------- *)
-  (* the population invariant: every entry is stored under the digest of its own
-     bytes, and every data section stored passed the per-file check *)
+  (* the population invariant: every member is stored under the digest of its own
+     bytes; every data section stored passed the per-file check; every uncompressed
+     tar is the decompression of bytes with the digest in its name, and of the
+     compressed file of the same name when there is one *)
+  Definition sums_pass (t : list N) : Prop := forall fs, untar t = Some fs -> check_sums sha1 fs = true.
   Definition cache_ok (k : cache) : Prop :=
-    (forall s c, In (s, c) (k_ctl k) -> s = sha1 (c_raw c)) /\
-    (forall n d, In (n, d) (k_dat k) -> n = hex (sha256 (d_raw d)) /\ check_sums sha1 (d_files d) = true).
+    (forall s c, In (s, c) (k_ctl k) -> s = sha1 c) /\
+    (forall n g, In (n, g) (k_gz k) -> n = hex (sha256 g) /\ forall t, gunzip g = Some t -> sums_pass t) /\
+    (forall n t, In (n, t) (k_tar k) -> exists g, n = hex (sha256 g) /\ gunzip g = Some t /\ sums_pass t) /\
+    (forall n t g, In (n, t) (k_tar k) -> assoc_s n (k_gz k) = Some g -> gunzip g = Some t).
 
   Lemma empty_cache_ok : cache_ok empty_cache.
-  Proof. split; intros ? ? H; destruct H. Qed.
+  Proof. split; [|split; [|split]]; [intros ? ? H | intros ? ? H | intros ? ? H | intros ? ? ? H]; destruct H. Qed.
+
+  (* "an existing destination wins" is harmless when it holds the same bytes:
+     what collision resistance gives a content-addressed store (dst_same_of_cr) *)
+  Definition dst_same (k : cache) (e : fetched) : Prop :=
+    (forall c', In (e_ch e, c') (k_ctl k) -> c' = c_raw (e_ctl e)) /\
+    (forall g', In (hex (e_dh e), g') (k_gz k) -> g' = e_gz e) /\
+    (forall t', In (hex (e_dh e), t') (k_tar k) -> t' = e_tar e).
 
   (* a hit hands back what is stored under the expected names; nothing is hashed *)
-  Lemma cached_package_by_name k h x :
-    cached_package b64 k h = Some x ->
-    h_q1 h = true /\ exists sum dh,
-      h_sum h = Some sum /\ In (sum, x_ctl x) (k_ctl k) /\
-      c_datahash (x_ctl x) = [dh] /\ In (dh, x_dat x) (k_dat k) /\ x_ctl_hash x = sum.
+  Lemma cached_package_by_name k h x k' :
+    cached_package k h = (Some x, k') ->
+    h_q1 h = true /\ exists sum dh t,
+      h_sum h = Some sum /\ In (sum, x_ctl_file x) (k_ctl k) /\ mk_ctl (x_ctl_file x) = Some (x_ctl x) /\
+      c_datahash (x_ctl x) = [dh] /\ assoc_s dh (k_gz k) = Some (d_raw (x_dat x)) /\ x_ctl_hash x = sum /\
+      untar t = Some (d_files (x_dat x)) /\
+      ((In (dh, t) (k_tar k) /\ k' = k) \/
+       (assoc_s dh (k_tar k) = None /\ gunzip (d_raw (x_dat x)) = Some t /\
+        k' = {| k_ctl := k_ctl k; k_gz := k_gz k; k_tar := (dh, t) :: k_tar k |})).
   Proof.
-    unfold cached_package. destruct (h_q1 h); [|discriminate].
+    unfold PkgAuth.cached_package. destruct (h_q1 h); [|discriminate].
     destruct (h_sum h) as [sum|]; [|discriminate].
-    destruct (assoc_b sum (k_ctl k)) as [c|] eqn:A; [|discriminate].
+    destruct (assoc_b sum (k_ctl k)) as [craw|] eqn:A; [|discriminate].
+    destruct (mk_ctl craw) as [c|] eqn:M; [|discriminate].
     destruct (c_datahash c) as [|dh [|? ?]] eqn:Dh; try discriminate.
-    destruct (assoc_s dh (k_dat k)) as [d|] eqn:Ad; [|discriminate].
-    destruct (is_hex dh); [|discriminate]. intro H. inversion H; subst; simpl.
-    split; [reflexivity|]. exists sum, dh. apply assoc_b_in in A. apply assoc_s_in in Ad. auto.
+    destruct (assoc_s dh (k_gz k)) as [gz|] eqn:Ag; [|discriminate].
+    destruct (is_hex dh); [|discriminate].
+    apply assoc_b_in in A.
+    destruct (assoc_s dh (k_tar k)) as [t|] eqn:At.
+    - destruct (untar t) as [fs|] eqn:U; [|discriminate]. intro H; inversion H; subst; simpl.
+      split; [reflexivity|]. exists sum, dh, t. apply assoc_s_in in At. repeat split; auto.
+    - destruct (gunzip gz) as [t|] eqn:G; [|discriminate].
+      destruct (untar t) as [fs|] eqn:U; [|discriminate]. intro H; inversion H; subst; simpl.
+      split; [reflexivity|]. exists sum, dh, t. repeat split; auto.
   Qed.
 
-  Lemma cached_package_chain k h x : cache_ok k -> cached_package b64 k h = Some x -> Chain h x.
+  (* whatever cachedPackage leaves behind (a rebuilt .dat.tar) keeps the invariant *)
+  Lemma cached_package_keeps_ok k h r k' : cache_ok k -> cached_package k h = (r, k') -> cache_ok k'.
   Proof.
-    intros [Kc Kd] H. apply cached_package_by_name in H.
-    destruct H as (_ & sum & dh & Hs & Ic & Dh & Id & _).
-    specialize (Kc _ _ Ic). destruct (Kd _ _ Id) as [Kn Kf].
-    split; [rewrite Hs, Kc; reflexivity|]. split.
-    - intros v Hv _. rewrite Dh in Hv. destruct Hv as [<-|[]]. exact Kn.
-    - apply check_sums_ok. exact Kf.
+    intros Ok0. unfold PkgAuth.cached_package.
+    destruct (h_q1 h); [|intro H; inversion H; subst; exact Ok0].
+    destruct (h_sum h) as [sum|]; [|intro H; inversion H; subst; exact Ok0].
+    destruct (assoc_b sum (k_ctl k)) as [craw|]; [|intro H; inversion H; subst; exact Ok0].
+    destruct (mk_ctl craw) as [c|]; [|intro H; inversion H; subst; exact Ok0].
+    destruct (c_datahash c) as [|dh [|? ?]]; try (intro H; inversion H; subst; exact Ok0).
+    destruct (assoc_s dh (k_gz k)) as [gz|] eqn:Ag; [|intro H; inversion H; subst; exact Ok0].
+    destruct (is_hex dh); [|intro H; inversion H; subst; exact Ok0].
+    destruct (assoc_s dh (k_tar k)) as [t|]; [intro H; inversion H; subst; exact Ok0|].
+    destruct (gunzip gz) as [t|] eqn:G; [|intro H; inversion H; subst; exact Ok0].
+    destruct Ok0 as (Kc & Kg & Kt & Kp). intro H; inversion H; subst; clear H. pose proof (assoc_s_in _ _ _ Ag) as Ig. destruct (Kg _ _ Ig) as [Kn Ks].
+    split; [exact Kc|]. split; [exact Kg|]. simpl. split.
+    - intros n t' [E|Hin]; [|apply Kt; exact Hin].
+      injection E as En Et. subst n t'. exists gz. split; [exact Kn|]. split; [exact G | apply Ks; exact G].
+    - intros n t' g [E|Hin] Hg; [|eapply Kp; eauto]. injection E as En Et. subst n t'. rewrite Ag in Hg. injection Hg as <-. exact G.
   Qed.
 
-  (* "an existing destination wins" is harmless when it holds the same member:
-     what collision resistance gives a content-addressed store *)
-  Definition dst_same (k : cache) (a : apkfile) : Prop :=
-    (forall c', In (sha1 (c_raw (a_ctl a)), c') (k_ctl k) -> c' = a_ctl a) /\
-    (forall d', In (hex (sha256 (d_raw (a_dat a))), d') (k_dat k) -> d' = a_dat a).
-
-  Lemma cache_package_spec k a :
-    cache_ok k -> dst_same k a -> check_sums sha1 (d_files (a_dat a)) = true ->
-    let ch := sha1 (c_raw (a_ctl a)) in let dh := sha256 (d_raw (a_dat a)) in
-    forall k' x, cache_package k (a_ctl a) (a_dat a) ch dh = (k', x) ->
-      cache_ok k' /\ x_ctl x = a_ctl a /\ x_dat x = a_dat a /\ x_ctl_hash x = ch.
+  Lemma cached_package_chain k h x k' : cache_ok k -> cached_package k h = (Some x, k') -> Chain h x.
   Proof.
-    intros [Kc Kd] [Sc Sd] Cs ch dh k' x H. unfold cache_package in H. fold ch dh in H.
-    inversion H; subst k' x; clear H. simpl.
-    assert (match assoc_b ch (match assoc_b ch (k_ctl k) with Some _ => k_ctl k | None => (ch, a_ctl a) :: k_ctl k end)
-            with Some c' => c' | None => a_ctl a end = a_ctl a) as E1.
-    { destruct (assoc_b ch (k_ctl k)) as [c'|] eqn:A.
-      - rewrite A. apply Sc. apply assoc_b_in. exact A.
-      - simpl. assert (bytes_eqb ch ch = true) as R by (apply bytes_eqb_eq; reflexivity). rewrite R. reflexivity. }
-    assert (match assoc_s (hex dh) (match assoc_s (hex dh) (k_dat k) with Some _ => k_dat k | None => (hex dh, a_dat a) :: k_dat k end)
-            with Some d' => d' | None => a_dat a end = a_dat a) as E2.
-    { destruct (assoc_s (hex dh) (k_dat k)) as [d'|] eqn:A.
-      - rewrite A. apply Sd. apply assoc_s_in. exact A.
-      - simpl. rewrite String.eqb_refl. reflexivity. }
-    split; [|auto]. split; simpl.
-    - intros s c Hin. destruct (assoc_b ch (k_ctl k)); [apply Kc; exact Hin|].
-      destruct Hin as [Hin|Hin]; [inversion Hin; subst; reflexivity | apply Kc; exact Hin].
-    - intros n d Hin. destruct (assoc_s (hex dh) (k_dat k)); [apply Kd; exact Hin|].
-      destruct Hin as [Hin|Hin]; [inversion Hin; subst; split; [reflexivity | exact Cs] | apply Kd; exact Hin].
+    intros (Kc & Kg & Kt & Kp) H. apply cached_package_by_name in H.
+    destruct H as (_ & sum & dh & t & Hs & Ic & M & Dh & Ag & _ & U & T).
+    specialize (Kc _ _ Ic). destruct (Kg _ _ (assoc_s_in _ _ _ Ag)) as [Kn Ks].
+    pose proof (mk_ctl_raw _ _ M) as R.
+    split; [rewrite Hs, Kc, R; reflexivity|]. split; [symmetry; exact R|]. split; [eapply mk_ctl_fix; exact M|].
+    split; [intros v Hv _; rewrite Dh in Hv; destruct Hv as [<-|[]]; exact Kn|].
+    assert (gunzip (d_raw (x_dat x)) = Some t) as G.
+    { destruct T as [[It _]|(_ & G & _)]; [eapply Kp; eauto | exact G]. }
+    split; [unfold PkgAuth.dat_view; rewrite G; exact U | apply check_sums_ok; eapply Ks; eauto].
+  Qed.
+
+  Lemma adv_s_other {A} n (v : A) l m : m <> n -> assoc_s m (adv_s n v l) = assoc_s m l.
+  Proof.
+    intro NE. unfold adv_s. destruct (assoc_s n l); [reflexivity|]. simpl.
+    destruct (String.eqb m n) eqn:E; [apply String.eqb_eq in E; contradiction | reflexivity].
+  Qed.
+
+  (* cachePackage of a package that went through the data branch of ExpandApk *)
+  Lemma cache_package_spec k e :
+    cache_ok k -> dst_same k e ->
+    e_ch e = sha1 (c_raw (e_ctl e)) -> e_dh e = sha256 (e_gz e) ->
+    gunzip (e_gz e) = Some (e_tar e) -> untar (e_tar e) = Some (e_files e) -> check_sums sha1 (e_files e) = true ->
+    forall k' x, cache_package k e = (k', x) ->
+      cache_ok k' /\
+      x = Some {| x_ctl := e_ctl e; x_ctl_file := c_raw (e_ctl e);
+                  x_dat := {| d_raw := e_gz e; d_files := e_files e |}; x_ctl_hash := e_ch e |}.
+  Proof.
+    intros (Kc & Kg & Kt & Kp) (Sc & Sg & St) Hch Hdh G U Cs k' x H. unfold PkgAuth.cache_package in H.
+    set (n := hex (e_dh e)) in *.
+    assert (sums_pass (e_tar e)) as SP by (intros fs E; rewrite U in E; inversion E; subst; exact Cs).
+    destruct (adv_b_get (e_ch e) (c_raw (e_ctl e)) (k_ctl k)) as (cw & Ac & Hc).
+    destruct (adv_s_get n (e_gz e) (k_gz k)) as (gw & Ag & Hg).
+    destruct (adv_s_get n (e_tar e) (k_tar k)) as (tw & At & Ht).
+    assert (cw = c_raw (e_ctl e)) as -> by (destruct Hc as [Hc|Hc]; [apply Sc; exact Hc | exact Hc]).
+    assert (gw = e_gz e) as -> by (destruct Hg as [Hg|Hg]; [apply Sg; exact Hg | exact Hg]).
+    assert (tw = e_tar e) as -> by (destruct Ht as [Ht|Ht]; [apply St; exact Ht | exact Ht]).
+    inversion H; subst k' x; clear H. cbn [k_ctl k_gz k_tar]. rewrite Ac, Ag, At, U. split; [|reflexivity].
+    split; [|split; [|split]].
+    - intros s c Hin. apply adv_b_in in Hin. destruct Hin as [Hin|(-> & -> & _)]; [apply Kc; exact Hin | exact Hch].
+    - intros m g Hin. apply adv_s_in in Hin. destruct Hin as [Hin|(-> & -> & _)]; [apply Kg; exact Hin|].
+      split; [unfold n; rewrite Hdh; reflexivity|]. intros t Ht'. rewrite G in Ht'. inversion Ht'; subst. exact SP.
+    - intros m t Hin. apply adv_s_in in Hin. destruct Hin as [Hin|(-> & -> & _)]; [apply Kt; exact Hin|].
+      exists (e_gz e). split; [unfold n; rewrite Hdh; reflexivity|]. split; [exact G | exact SP].
+    - intros m t g Hin Hgz. cbn [k_ctl k_gz k_tar] in Hin, Hgz. destruct (String.eqb m n) eqn:E.
+      + apply String.eqb_eq in E; subst m. rewrite Ag in Hgz. inversion Hgz; subst g.
+        apply adv_s_in in Hin. destruct Hin as [Hin|(_ & -> & _)]; [rewrite (St _ Hin)|]; exact G.
+      + assert (m <> n) as NE by (intro K; subst; rewrite String.eqb_refl in E; discriminate).
+        rewrite (adv_s_other _ _ _ _ NE) in Hgz.
+        apply adv_s_in in Hin. destruct Hin as [Hin|(K & _)]; [eapply Kp; eauto | contradiction].
   Qed.
 
   Definition opt_cache_ok (k : option cache) : Prop := match k with Some kc => cache_ok kc | None => True end.
-  Definition opt_dst_same (k : option cache) (s : option apkfile) : Prop :=
-    match k, s with Some kc, Some a => dst_same kc a | _, _ => True end.
+  Definition opt_dst_same (k : option cache) (s : option stream) : Prop :=
+    match k, s with Some kc, Some st => forall e, expand_apk st = FOk e -> dst_same kc e | _, _ => True end.
+
+  (* a .dat.tar rebuilt during the lookup does not disturb "same destination" *)
+  Lemma dst_same_after_lookup k h r k' e :
+    cached_package k h = (r, k') -> gunzip (e_gz e) = Some (e_tar e) -> dst_same k e -> dst_same k' e.
+  Proof.
+    intros H G DS. unfold PkgAuth.cached_package in H.
+    destruct (h_q1 h); [|inversion H; subst; exact DS].
+    destruct (h_sum h) as [sum|]; [|inversion H; subst; exact DS].
+    destruct (assoc_b sum (k_ctl k)) as [craw|]; [|inversion H; subst; exact DS].
+    destruct (mk_ctl craw) as [c|]; [|inversion H; subst; exact DS].
+    destruct (c_datahash c) as [|dh [|? ?]]; try (inversion H; subst; exact DS).
+    destruct (assoc_s dh (k_gz k)) as [gz|] eqn:Ag; [|inversion H; subst; exact DS].
+    destruct (is_hex dh); [|inversion H; subst; exact DS].
+    destruct (assoc_s dh (k_tar k)) as [t|]; [inversion H; subst; exact DS|].
+    destruct (gunzip gz) as [t|] eqn:Gz; [|inversion H; subst; exact DS].
+    destruct DS as (Sc & Sg & St). inversion H; subst; clear H. split; [exact Sc|]. split; [exact Sg|]. simpl.
+    intros t' [E|Hin]; [|apply St; exact Hin]. injection E as En Et. subst t'.
+    apply assoc_s_in in Ag. rewrite En in Ag. rewrite (Sg _ Ag) in Gz. rewrite G in Gz. injection Gz as <-. reflexivity.
+  Qed.
 
   (* ---- expandPackage ------------------------------------------------------------- *)
   Lemma expand_uncached_chain k h served x k' :
     opt_cache_ok k -> opt_dst_same k served ->
-    expand_uncached sha1 sha256 b64 k h served = (XOk x, k') -> Chain h x /\ opt_cache_ok k'.
+    expand_uncached k h served = (XOk x, k') -> Chain h x /\ opt_cache_ok k'.
   Proof.
-    intros Ok Same. unfold expand_uncached.
-    destruct (match k with Some kc => cached_package b64 kc h | None => None end) as [x0|] eqn:Hit.
-    - intro H. injection H as Hx Hk. subst x0 k'. split; [|exact Ok].
-      destruct k as [kc|]; [|discriminate]. eapply cached_package_chain; eauto.
-    - destruct served as [a|]; [|discriminate].
-      destruct (check_sums sha1 (d_files (a_dat a))) eqn:Cs; cbn [negb]; [|discriminate].
-      destruct (verify_expanded b64 h (sha1 (c_raw (a_ctl a))) (sha256 (d_raw (a_dat a))) (a_ctl a)) eqn:V; cbn [negb]; [|discriminate].
+    intros Ok Same. unfold PkgAuth.expand_uncached.
+    destruct (match k with
+              | Some kc => let (x0, kc1) := cached_package kc h in (x0, Some kc1)
+              | None => (None, None) end) as [hit k1] eqn:L.
+    assert (opt_cache_ok k1 /\ (forall x0, hit = Some x0 -> Chain h x0) /\
+            (forall kc1 s e, k1 = Some kc1 -> served = Some s -> expand_apk s = FOk e -> dst_same kc1 e)) as (Ok1 & Hit & Same1).
+    { destruct k as [kc|].
+      - destruct (cached_package kc h) as [x0 kc1] eqn:CP. inversion L; subst.
+        split; [eapply cached_package_keeps_ok; eauto|]. split.
+        + intros x1 ->. eapply cached_package_chain; eauto.
+        + intros kc2 s e E1 -> EA. inversion E1; subst. destruct (expand_apk_spec _ _ _ EA) as (u & _ & _ & _ & _ & Eg & G & _).
+          eapply dst_same_after_lookup; [exact CP | rewrite Eg; exact G | apply Same; exact EA].
+      - inversion L; subst. split; [exact I|]. split; [intros ? K; discriminate K | intros ? ? ? K; discriminate K]. }
+    destruct hit as [x0|].
+    - intro H. inversion H; subst. split; [apply Hit; reflexivity | exact Ok1].
+    - destruct served as [s|]; [|discriminate].
+      destruct (expand_apk s) as [e|c] eqn:EA; [|discriminate].
+      destruct (verify_expanded b64 h (e_ch e) (e_dh e) (e_ctl e)) eqn:V; cbn [negb]; [|discriminate].
       apply verify_expanded_spec in V. destruct V as [V1 V2].
-      destruct k as [kc|].
-      + destruct (cache_package kc (a_ctl a) (a_dat a) (sha1 (c_raw (a_ctl a))) (sha256 (d_raw (a_dat a)))) as [kc' x1] eqn:CP.
-        intro H. inversion H; subst.
-        destruct (cache_package_spec kc a Ok Same Cs _ _ CP) as (Ok' & E1 & E2 & _).
-        split; [|exact Ok']. unfold PkgAuthSpec.Chain. rewrite E1, E2.
-        split; [exact V1|]. split; [exact V2 | apply check_sums_ok; exact Cs].
-      + intro H. inversion H; subst. split; [|exact I]. unfold PkgAuthSpec.Chain; simpl.
-        split; [exact V1|]. split; [exact V2 | apply check_sums_ok; exact Cs].
+      destruct (expand_apk_spec _ _ _ EA) as (u & Cu & Er & M & Ech & Eg & G & U & Full & _).
+      destruct (Full (cut_full _ _ Cu)) as [Edh Cs].
+      assert (Chain h {| x_ctl := e_ctl e; x_ctl_file := c_raw (e_ctl e);
+                         x_dat := {| d_raw := e_gz e; d_files := e_files e |}; x_ctl_hash := e_ch e |}) as CH.
+      { unfold PkgAuthSpec.Chain; simpl. split; [rewrite V1, Ech, Er; reflexivity|]. split; [reflexivity|].
+        split; [rewrite Er; exact M|]. split; [intros v Hv NE; rewrite (V2 v Hv NE), Edh, Eg; reflexivity|].
+        split; [unfold PkgAuth.dat_view; rewrite Eg, G; exact U | apply check_sums_ok; exact Cs]. }
+      destruct k1 as [kc1|].
+      + destruct (cache_package kc1 e) as [kc' xo] eqn:CP.
+        assert (cache_ok kc' /\ xo = Some {| x_ctl := e_ctl e; x_ctl_file := c_raw (e_ctl e);
+                  x_dat := {| d_raw := e_gz e; d_files := e_files e |}; x_ctl_hash := e_ch e |}) as [Ok' ->].
+        { eapply cache_package_spec; try exact CP; try assumption.
+          - eapply Same1; eauto.
+          - rewrite Ech, Er; reflexivity.
+          - rewrite Edh, Eg; reflexivity.
+          - rewrite Eg; exact G. }
+        intro H; inversion H; subst. split; [exact CH | exact Ok'].
+      + intro H; inversion H; subst. split; [exact CH | exact I].
   Qed.
 
   Lemma expand_uncached_keeps_cache_ok k h served r k' :
     opt_cache_ok k -> opt_dst_same k served ->
-    expand_uncached sha1 sha256 b64 k h served = (r, k') -> opt_cache_ok k'.
+    expand_uncached k h served = (r, k') -> opt_cache_ok k'.
   Proof.
     intros Ok Same H. destruct r as [x|e]; [eapply expand_uncached_chain; eauto|].
-    unfold expand_uncached in H.
-    destruct (match k with Some kc => cached_package b64 kc h | None => None end); [discriminate|].
-    destruct served as [a|]; [|inversion H; subst; exact Ok].
-    destruct (negb (check_sums sha1 (d_files (a_dat a)))); [inversion H; subst; exact Ok|].
-    destruct (negb (verify_expanded b64 h _ _ (a_ctl a))); [inversion H; subst; exact Ok|].
-    destruct k as [kc|]; [|discriminate].
-    destruct (cache_package kc _ _ _ _); discriminate.
+    unfold PkgAuth.expand_uncached in H.
+    destruct (match k with
+              | Some kc => let (x0, kc1) := cached_package kc h in (x0, Some kc1)
+              | None => (None, None) end) as [hit k1] eqn:L.
+    assert (opt_cache_ok k1) as Ok1.
+    { destruct k as [kc|]; [|inversion L; subst; exact I].
+      destruct (cached_package kc h) as [x0 kc1] eqn:CP. inversion L; subst. eapply cached_package_keeps_ok; eauto. }
+    destruct hit; [discriminate|].
+    destruct served as [s|]; [|inversion H; subst; exact Ok1].
+    destruct (expand_apk s) as [e0|c] eqn:EA; [|inversion H; subst; exact Ok1].
+    destruct (negb (verify_expanded b64 h (e_ch e0) (e_dh e0) (e_ctl e0))); [inversion H; subst; exact Ok1|].
+    destruct k1 as [kc1|]; [|discriminate].
+    (* cachePackage ran and re-opening the tar failed: the cache was written all the same *)
+    destruct (cache_package kc1 e0) as [kc' xo] eqn:CP. inversion H; subst; clear H.
+    destruct (expand_apk_spec _ _ _ EA) as (u & Cu & Er & M & Ech & Eg & G & U & Full & _).
+    destruct (Full (cut_full _ _ Cu)) as [Edh Cs].
+    assert (dst_same kc1 e0) as DS.
+    { destruct k as [kc|]; [|discriminate L]. destruct (cached_package kc h) as [x0 kc2] eqn:CP0. inversion L; subst.
+      eapply dst_same_after_lookup; [exact CP0 | rewrite Eg; exact G | apply Same; exact EA]. }
+    eapply cache_package_spec; try exact CP; try assumption.
+    - rewrite Ech, Er; reflexivity.
+    - rewrite Edh, Eg; reflexivity.
+    - rewrite Eg; exact G.
   Qed.
 
-  (* a per-file mismatch aborts the fetch path *)
-  Lemma expand_uncached_file_mismatch k h a f d :
-    (match k with Some kc => cached_package b64 kc h | None => None end) = None ->
-    In f (d_files (a_dat a)) -> f_kind f = FReg -> f_sum f = SumSome d -> d <> sha1 (f_body f) ->
-    expand_uncached sha1 sha256 b64 k h (Some a) = (XErr ESums, k).
+  (* a per-file mismatch aborts the fetch path (when the data branch of ExpandApk ran) *)
+  Lemma expand_apk_file_mismatch s u t fs f d :
+    cut s = Some u -> u_full u = true -> gunzip (u_dat u) = Some t -> untar t = Some fs ->
+    In f fs -> f_kind f = FReg -> f_sum f = SumSome d -> d <> sha1 (f_body f) ->
+    expand_apk s = FErr ESums.
   Proof.
-    intros Miss Hf K S NE. unfold expand_uncached. rewrite Miss.
+    intros Cu Fu G U Hf K S NE. unfold PkgAuth.expand_apk, PkgAuth.expand_apk_with. unfold PkgAuth.cut in Cu. rewrite Cu, G, U, Fu.
     rewrite (check_sums_mismatch _ f d Hf K S NE). reflexivity.
   Qed.
 
   (* Chain depends on the handle only through the checksum it records *)
   Lemma chain_same_sum h h' x : h_sum h = h_sum h' -> Chain h x -> Chain h' x.
-  Proof. unfold PkgAuthSpec.Chain. intros E (A & B & C). rewrite <- E. auto. Qed.
+  Proof. unfold PkgAuthSpec.Chain. intros E (A & B). rewrite <- E. auto. Qed.
 
   (* the process memo: every stored success satisfies the chain for the request
      (URL, checksum string) it is stored under *)
@@ -233,16 +494,16 @@ Section WithOracles.
 
   Lemma expand_package_chain m k h served r k' m' :
     memo_inv m -> opt_cache_ok k -> opt_dst_same k served ->
-    expand_package sha1 sha256 b64 m k h served = (r, k', m') ->
+    expand_package m k h served = (r, k', m') ->
     (forall x, r = XOk x -> Chain h x) /\ opt_cache_ok k' /\ memo_inv m'.
   Proof.
-    intros MI Ok Same. unfold expand_package. destruct k as [kc|].
+    intros MI Ok Same. unfold PkgAuth.expand_package. destruct k as [kc|].
     - destruct (assoc_k (memo_key h) m) as [r0|] eqn:A.
       + intro H. inversion H; subst. split; [|split; assumption].
         intros x E. destruct (MI _ _ x A E) as (h0 & K0 & C0).
         eapply chain_same_sum; [|exact C0]. unfold memo_key in K0. inversion K0 as [[Hu Hc]].
         unfold PkgAuth.h_sum. rewrite Hc. reflexivity.
-      + destruct (expand_uncached sha1 sha256 b64 (Some kc) h served) as [r1 k1] eqn:EU.
+      + destruct (expand_uncached (Some kc) h served) as [r1 k1] eqn:EU.
         intro H. inversion H; subst.
         assert (forall x, r = XOk x -> Chain h x) as CH.
         { intros x E; subst. eapply expand_uncached_chain; eauto. }
@@ -252,76 +513,288 @@ Section WithOracles.
         intros u r2 x A2 E2. simpl in A2. destruct (key_eqb u (memo_key h)) eqn:Eu.
         * apply key_eqb_eq in Eu; subst u. inversion A2; subst. exists h. split; [reflexivity | apply CH; assumption].
         * eapply MI; eauto.
-    - destruct (expand_uncached sha1 sha256 b64 None h served) as [r1 k1] eqn:EU.
+    - destruct (expand_uncached None h served) as [r1 k1] eqn:EU.
       intro H. inversion H; subst. split; [|split; [eapply expand_uncached_keeps_cache_ok; eauto | exact MI]].
       intros x E; subst. eapply expand_uncached_chain; eauto.
   Qed.
 
-  (* under collision resistance, stated as hypotheses on the oracles, the chain
-     pins the installed members to the ones the index entry describes *)
-  Lemma chain_pins_bytes h x g :
-    (forall a b, sha1 a = sha1 b -> a = b) ->
-    (forall a b, hex (sha256 a) = hex (sha256 b) -> a = b) ->
-    (forall c c', c_raw c = c_raw c' -> c_datahash c = c_datahash c') ->
-    h_sum h = Some (sha1 (c_raw (a_ctl g))) ->
-    (exists dh, In dh (c_datahash (a_ctl g)) /\ dh <> "" /\ dh = hex (sha256 (d_raw (a_dat g)))) ->
-    Chain h x ->
-    c_raw (x_ctl x) = c_raw (a_ctl g) /\ d_raw (x_dat x) = d_raw (a_dat g).
+  (* ---- what the hashes cover --------------------------------------------------------
+     ExpandApk accounts for every byte served: [signature member] ++ the ONE member
+     hashed as control section ++ ALL remaining members, hashed together as data
+     section; nothing may follow them. What it hands on is decoded from exactly
+     those bytes. *)
+  Lemma hashes_cover_members s e :
+    expand_apk s = FOk e ->
+    s_trail s = [] /\
+    (exists pre rest, s_members s = pre ++ c_raw (e_ctl e) :: rest /\ (pre = [] \/ exists sg, pre = [sg]) /\
+                      rest <> [] /\ e_gz e = List.concat rest) /\
+    e_ch e = sha1 (c_raw (e_ctl e)) /\ mk_ctl (c_raw (e_ctl e)) = Some (e_ctl e) /\
+    dat_view (e_gz e) = Some (e_files e) /\ gunzip (e_gz e) = Some (e_tar e) /\
+    e_dh e = sha256 (e_gz e) /\ check_sums sha1 (e_files e) = true.
   Proof.
-    intros CR1 CR2 Fun Hs (dh & Hin & NE & Hd) (A & B & _).
-    assert (c_raw (x_ctl x) = c_raw (a_ctl g)) as E.
-    { apply CR1. rewrite Hs in A. inversion A. reflexivity. }
-    split; [exact E|]. apply CR2. rewrite <- Hd. symmetry. apply B; [|exact NE].
-    rewrite (Fun _ _ E). exact Hin.
+    intro H. destruct (expand_apk_spec _ _ _ H) as (u & Cu & Er & M & Ech & Eg & G & U & Full & _).
+    destruct (cut_covers _ _ _ Cu) as (T & _ & pre & rest & Hm & Hp & Hd & Hn).
+    split; [exact T|]. split.
+    - exists pre, rest. rewrite Er, Eg. split; [exact Hm|]. split; [|split; assumption].
+      destruct Hp as [[-> _]| ->]; [left; reflexivity | right; eexists; reflexivity].
+    - split; [rewrite Ech, Er; reflexivity|]. split; [rewrite Er; exact M|].
+      split; [unfold PkgAuth.dat_view; rewrite Eg, G; exact U|]. split; [rewrite Eg; exact G|].
+      rewrite Eg. apply Full. eapply cut_full; eauto.
   Qed.
+
+  (* ---- collision resistance, stated as hypotheses on the oracles ------------------- *)
+  Section CR.
+    Hypothesis cr1 : forall a b, sha1 a = sha1 b -> a = b.
+    Hypothesis cr256 : forall a b, hex (sha256 a) = hex (sha256 b) -> a = b.
+
+    (* content addressing: an existing destination of cachePackage holds the same bytes *)
+    Lemma dst_same_of_cr k s e : cache_ok k -> expand_apk s = FOk e -> dst_same k e.
+    Proof.
+      intros (Kc & Kg & Kt & _) H.
+      destruct (hashes_cover_members _ _ H) as (_ & _ & Ech & _ & _ & G & Edh & _).
+      split; [|split].
+      - intros c' Hin. apply Kc in Hin. symmetry. apply cr1. rewrite <- Ech. exact Hin.
+      - intros g' Hin. apply Kg in Hin. destruct Hin as [Hn _]. symmetry. apply cr256. rewrite <- Edh. exact Hn.
+      - intros t' Hin. apply Kt in Hin. destruct Hin as (g & Hn & Hg & _).
+        assert (e_gz e = g) as E by (apply cr256; rewrite <- Edh; exact Hn).
+        rewrite <- E in Hg. rewrite G in Hg. injection Hg as <-. reflexivity.
+    Qed.
+
+    Lemma opt_dst_same_of_cr k served : opt_cache_ok k -> opt_dst_same k served.
+    Proof.
+      destruct k as [kc|], served as [s|]; simpl; try (intros; exact I).
+      intros Ok e H. eapply dst_same_of_cr; eauto.
+    Qed.
+
+    (* the chain pins the installed members to the ones the index entry describes:
+       [gc] = the control member whose SHA-1 the handle records, [gd] = the data
+       bytes whose SHA-256 a non-empty datahash of [gc] records *)
+    Lemma chain_pins_bytes h x gc cg dh gd :
+      h_sum h = Some (sha1 gc) -> mk_ctl gc = Some cg -> In dh (c_datahash cg) -> dh <> "" -> dh = hex (sha256 gd) ->
+      Chain h x ->
+      x_ctl x = cg /\ x_ctl_file x = gc /\ d_raw (x_dat x) = gd /\ dat_view gd = Some (d_files (x_dat x)).
+    Proof.
+      intros Hs M Hin NE Hd (A & B & C & D & E & _).
+      assert (c_raw (x_ctl x) = gc) as R by (apply cr1; rewrite Hs in A; injection A as <-; reflexivity).
+      rewrite R in C, B. rewrite M in C. injection C as C. subst cg.
+      assert (d_raw (x_dat x) = gd) as Rd by (apply cr256; rewrite <- Hd; symmetry; apply D; assumption).
+      rewrite Rd in E. auto.
+    Qed.
+  End CR.
 End WithOracles.
 
 (* ---- installation ------------------------------------------------------------- *)
-Definition reg_files (fs : list dfile) : list (string * list N) :=
-  List.flat_map (fun f => match f_kind f with FReg => [(f_name f, f_body f)] | _ => [] end) fs.
-
-(* whatever is installed is the data section's own regular files *)
-Lemma install_files_view lazy : forall fs out, install_files lazy fs = Some out -> out = reg_files fs.
+(* whatever is installed under a name is the body of a regular entry of that name, or
+   the name is a hard-link entry's and the bytes are those of an earlier name *)
+Lemma install_files_sound lazy (P : list N -> Prop) : forall fs seen out,
+  install_files lazy seen fs = Some out ->
+  (forall n b, In (n, b) seen -> P b) ->
+  (forall f, In f fs -> f_kind f = FReg -> P (f_body f)) ->
+  forall n b, In (n, b) out ->
+    exists f, In f fs /\ f_name f = n /\ ((f_kind f = FReg /\ f_body f = b) \/ (f_kind f = FLink /\ P b)).
 Proof.
-  induction fs as [|f fs IH]; simpl; intros out H; [inversion H; reflexivity|].
-  destruct (match f_kind f, f_sum f with
-            | FDir, _ => true | FReg, SumBad => false | FReg, SumNone => negb lazy | FReg, SumSome _ => true
-            | FSym, SumSome _ => true | FSym, SumNone => negb lazy | FSym, SumBad => negb lazy end); [|discriminate].
-  destruct (install_files lazy fs) as [o|]; [|discriminate]. inversion H; subst.
-  rewrite (IH o eq_refl). destruct (f_kind f); reflexivity.
+  induction fs as [|f fs IH]; simpl; intros seen out H Hs Hr n b Hin; [inversion H; subst; destruct Hin|].
+  assert (forall g, In g fs -> f_kind g = FReg -> P (f_body g)) as Hr' by (intros g Hg; apply Hr; right; exact Hg).
+  assert (forall seen' out', install_files lazy seen' fs = Some out' -> (forall n b, In (n, b) seen' -> P b) -> In (n, b) out' ->
+            exists f0, In f0 (f :: fs) /\ f_name f0 = n /\ ((f_kind f0 = FReg /\ f_body f0 = b) \/ (f_kind f0 = FLink /\ P b))) as Tail.
+  { intros seen' out' H' Hs' Hin'. destruct (IH _ _ H' Hs' Hr' _ _ Hin') as (f0 & I0 & R0). exists f0. split; [right; exact I0 | exact R0]. }
+  destruct (f_kind f) eqn:K.
+  - (* regular *)
+    destruct (match f_sum f with SumBad => false | SumNone => negb lazy | SumSome _ => true end); [|discriminate].
+    destruct (install_files lazy ((f_name f, f_body f) :: seen) fs) as [o|] eqn:R; [|discriminate]. inversion H; subst.
+    destruct Hin as [E|Hin].
+    + inversion E; subst. exists f. split; [left; reflexivity|]. split; [reflexivity | left; auto].
+    + eapply Tail; [exact R | | exact Hin]. intros n' b' [E|I']; [inversion E; subst; apply Hr; [left; reflexivity | exact K] | eapply Hs; eauto].
+  - destruct (match f_sum f with SumSome _ => true | _ => negb lazy end); [|discriminate]. eapply Tail; eauto.
+  - eapply Tail; eauto.
+  - (* hard link *)
+    destruct (assoc_s (f_link f) seen) as [bt|] eqn:A; [|discriminate].
+    destruct (install_files lazy ((f_name f, bt) :: seen) fs) as [o|] eqn:R; [|discriminate]. inversion H; subst.
+    assert (P bt) as Pb by (eapply Hs; apply assoc_s_in; exact A).
+    destruct Hin as [E|Hin].
+    + inversion E; subst. exists f. split; [left; reflexivity|]. split; [reflexivity | right; auto].
+    + eapply Tail; [exact R | | exact Hin]. intros n' b' [E|I']; [inversion E; subst; exact Pb | eapply Hs; eauto].
+  - discriminate.
+Qed.
+
+(* the two install paths: whenever the lazy install succeeds the streaming install
+   succeeds with the same bytes ... *)
+Lemma lazy_implies_streaming : forall fs seen out,
+  install_files true seen fs = Some out -> install_files false seen fs = Some out.
+Proof.
+  induction fs as [|f fs IH]; simpl; intros seen out H; [exact H|].
+  destruct (f_kind f).
+  - destruct (f_sum f); simpl in *; try discriminate.
+    destruct (install_files true ((f_name f, f_body f) :: seen) fs) as [o|] eqn:R; [|discriminate].
+    rewrite (IH _ _ R). exact H.
+  - destruct (f_sum f); simpl in *; try discriminate. apply IH; exact H.
+  - apply IH; exact H.
+  - destruct (assoc_s (f_link f) seen) as [bt|]; [|discriminate].
+    destruct (install_files true ((f_name f, bt) :: seen) fs) as [o|] eqn:R; [|discriminate].
+    rewrite (IH _ _ R). exact H.
+  - discriminate.
+Qed.
+
+(* ... and when only the streaming install succeeds, a regular file or a symlink
+   lacks a (decodable) recorded checksum: the lazy install refuses what the streaming
+   install recomputes (regular file) or never looks at (symlink) *)
+Lemma streaming_only : forall fs seen out,
+  install_files false seen fs = Some out -> install_files true seen fs = None ->
+  exists f, In f fs /\ ((f_kind f = FReg /\ f_sum f = SumNone) \/ (f_kind f = FSym /\ forall d, f_sum f <> SumSome d)).
+Proof.
+  induction fs as [|f fs IH]; simpl; intros seen out H L; [discriminate|].
+  assert (forall seen' out', install_files false seen' fs = Some out' -> install_files true seen' fs = None ->
+            exists f0, In f0 (f :: fs) /\ ((f_kind f0 = FReg /\ f_sum f0 = SumNone) \/ (f_kind f0 = FSym /\ forall d, f_sum f0 <> SumSome d))) as Tail.
+  { intros seen' out' H' L'. destruct (IH _ _ H' L') as (f0 & I0 & R0). exists f0. split; [right; exact I0 | exact R0]. }
+  destruct (f_kind f) eqn:K.
+  - destruct (f_sum f) eqn:S; simpl in *; try discriminate.
+    + exists f. split; [left; reflexivity | left; auto].
+    + destruct (install_files false ((f_name f, f_body f) :: seen) fs) as [o|] eqn:R; [|discriminate].
+      destruct (install_files true ((f_name f, f_body f) :: seen) fs) as [o'|] eqn:R'; [discriminate|]. eapply Tail; eauto.
+  - destruct (f_sum f) eqn:S; simpl in *.
+    + exists f. split; [left; reflexivity | right; split; [exact K | intros d E; rewrite S in E; discriminate]].
+    + exists f. split; [left; reflexivity | right; split; [exact K | intros d E; rewrite S in E; discriminate]].
+    + eapply Tail; eauto.
+  - eapply Tail; eauto.
+  - destruct (assoc_s (f_link f) seen) as [bt|]; [|discriminate].
+    destruct (install_files false ((f_name f, bt) :: seen) fs) as [o|] eqn:R; [|discriminate].
+    destruct (install_files true ((f_name f, bt) :: seen) fs) as [o'|] eqn:R'; [discriminate|]. eapply Tail; eauto.
+  - discriminate.
 Qed.
 
 (* lazy install: a regular file or symlink without a recorded checksum aborts *)
-Lemma lazy_missing_aborts : forall fs f,
-  In f fs -> (f_kind f = FReg \/ f_kind f = FSym) -> f_sum f = SumNone -> install_files true fs = None.
+Lemma lazy_missing_aborts : forall fs seen f,
+  In f fs -> (f_kind f = FReg \/ f_kind f = FSym) -> f_sum f = SumNone -> install_files true seen fs = None.
 Proof.
-  induction fs as [|g fs IH]; intros f Hf K S; [destruct Hf|]. simpl.
+  induction fs as [|g fs IH]; intros seen f Hf K S; [destruct Hf|]. simpl.
   destruct Hf as [->|Hf].
   - rewrite S. destruct K as [K|K]; rewrite K; reflexivity.
-  - rewrite (IH f Hf K S). destruct (f_kind g); destruct (f_sum g); reflexivity.
+  - destruct (f_kind g); try reflexivity.
+    + destruct (f_sum g); simpl; try reflexivity. rewrite (IH _ f Hf K S). reflexivity.
+    + destruct (f_sum g); simpl; try reflexivity. apply (IH _ f Hf K S).
+    + apply (IH _ f Hf K S).
+    + destruct (assoc_s (f_link g) seen); [|reflexivity]. rewrite (IH _ f Hf K S). reflexivity.
 Qed.
 
-(* streaming install: a missing checksum is recomputed; only an undecodable
-   record on a regular file aborts *)
-Lemma streaming_installs : forall fs,
-  (forall f, In f fs -> f_kind f = FReg -> f_sum f <> SumBad) ->
-  install_files false fs = Some (reg_files fs).
+(* streaming install: a missing checksum of a regular file is recomputed — the
+   outcome is the one for the package that records the right checksum there *)
+Section Fill.
+  Variable sha1 : list N -> list N.
+  Definition fill (f : dfile) : dfile :=
+    match f_kind f, f_sum f with
+    | FReg, SumNone => {| f_name := f_name f; f_kind := FReg; f_body := f_body f; f_sum := SumSome (sha1 (f_body f)); f_link := f_link f |}
+    | _, _ => f
+    end.
+  Lemma fill_proj f :
+    f_kind (fill f) = f_kind f /\ f_name (fill f) = f_name f /\ f_body (fill f) = f_body f /\ f_link (fill f) = f_link f /\
+    (f_sum (fill f) = f_sum f \/ (f_kind f = FReg /\ f_sum f = SumNone /\ f_sum (fill f) = SumSome (sha1 (f_body f)))).
+  Proof. unfold fill. destruct (f_kind f) eqn:K, (f_sum f) eqn:S; simpl; rewrite ?K, ?S; auto 10. Qed.
+  Lemma streaming_recomputes : forall fs seen,
+    install_files false seen (List.map fill fs) = install_files false seen fs.
+  Proof.
+    induction fs as [|f fs IH]; intros seen; [reflexivity|]. simpl.
+    destruct (fill_proj f) as (Pk & Pn & Pb & Pl & Ps). rewrite Pk, Pn, Pb, Pl.
+    destruct Ps as [Ps|(K & S & Ps)]; rewrite Ps.
+    - destruct (f_kind f); destruct (f_sum f); simpl; rewrite ?IH; try reflexivity;
+        destruct (assoc_s (f_link f) seen); rewrite ?IH; reflexivity.
+    - rewrite K, S. simpl. rewrite IH. reflexivity.
+  Qed.
+  (* ... and the per-file check of ExpandApk passes for the filled package exactly when
+     it passes for the original: a missing record is never compared *)
+  Lemma fill_check_sums : forall fs, check_sums sha1 (List.map fill fs) = check_sums sha1 fs.
+  Proof.
+    induction fs as [|f fs IH]; [reflexivity|]. simpl.
+    destruct (fill_proj f) as (Pk & Pn & Pb & Pl & Ps). rewrite Pk, Pb.
+    destruct Ps as [Ps|(K & S & Ps)]; rewrite Ps.
+    - rewrite IH. reflexivity.
+    - rewrite K, S, IH, bytes_eqb_refl. reflexivity.
+  Qed.
+End Fill.
+
+(* hard links and symlinks: checkSums never looks at them, so the per-file records
+   authenticate nothing about them — two data sections that differ only in where
+   their links point pass or fail the per-file check together *)
+Definition same_but_links (a b : dfile) : Prop :=
+  f_kind a = f_kind b /\ f_name a = f_name b /\ f_body a = f_body b /\ f_sum a = f_sum b.
+Lemma check_sums_ignores_links sha1 : forall fs gs,
+  Forall2 same_but_links fs gs -> check_sums sha1 fs = check_sums sha1 gs.
 Proof.
-  induction fs as [|g fs IH]; intros H; [reflexivity|]. simpl.
-  rewrite IH by (intros f Hf; apply H; right; exact Hf).
-  pose proof (H g (or_introl eq_refl)) as Hg.
-  destruct (f_kind g) eqn:K; destruct (f_sum g) eqn:S; simpl; try reflexivity.
-  exfalso. apply (Hg eq_refl). reflexivity.
+  induction 1 as [|a b fs gs (K & _ & B & S) _ IH]; [reflexivity|]. simpl. rewrite <- K, <- B, <- S, IH. reflexivity.
 Qed.
 
-(* ---- the two earlier memo keys (fixed findings C05-F1 / C05-F2), as regression
-   witnesses: two different requests that the earlier key shapes identified, the
-   second of which a fresh expansion refuses, while the pair key keeps them apart *)
+(* ---- end to end -------------------------------------------------------------------- *)
+Section EndToEnd.
+  Variable sha1 : list N -> list N.
+  Variable sha256 : list N -> list N.
+  Variable b64 : string -> option (list N).
+  Variable first_name : list N -> option string.
+  Variable ctl_view : list N -> option (string * list string).
+  Variable gunzip : list N -> option (list N).
+  Variable untar : list N -> option (list dfile).
+  Hypothesis cr1 : forall a b, sha1 a = sha1 b -> a = b.
+  Hypothesis cr256 : forall a b, hex (sha256 a) = hex (sha256 b) -> a = b.
+
+  (* [gc]: the control member whose SHA-1 the handle records; [gd]: the data bytes whose
+     SHA-256 a non-empty datahash inside [gc] records. Whatever path the package took
+     (fetched without a cache, fetched into a cold cache, warm cache hit, process memo):
+     what is installed is the install of exactly [gd]'s entries. *)
+  Lemma end_to_end m k h served x k' m' lazy out gc cg dh gd :
+    memo_inv sha1 sha256 b64 ctl_view gunzip untar m -> opt_cache_ok sha1 sha256 gunzip untar k ->
+    expand_package sha1 sha256 b64 first_name ctl_view gunzip untar m k h served = (XOk x, k', m') ->
+    install lazy x = Some out ->
+    h_sum b64 h = Some (sha1 gc) -> mk_ctl ctl_view gc = Some cg ->
+    In dh (c_datahash cg) -> dh <> "" -> dh = hex (sha256 gd) ->
+    (x_ctl x = cg /\ x_ctl_file x = gc /\ d_raw (x_dat x) = gd) /\
+    (exists fs, dat_view gunzip untar gd = Some fs /\ d_files (x_dat x) = fs /\
+       (forall f, In f fs -> file_ok sha1 f) /\
+       install_files lazy [] (data_section fs) = Some out /\
+       forall n b, In (n, b) out ->
+         exists f, In f fs /\ f_kind f = FReg /\ f_body f = b /\
+                   (f_name f = n \/ exists l, In l fs /\ f_kind l = FLink /\ f_name l = n)) /\
+    opt_cache_ok sha1 sha256 gunzip untar k' /\ memo_inv sha1 sha256 b64 ctl_view gunzip untar m'.
+  Proof.
+    intros MI Ok EP Inst Hs M Hin NE Hd.
+    destruct (expand_package_chain sha1 sha256 b64 first_name ctl_view gunzip untar m k h served (XOk x) k' m' MI Ok
+                (opt_dst_same_of_cr sha1 sha256 first_name ctl_view gunzip untar cr1 cr256 k served Ok) EP) as (CH & Ok' & MI').
+    specialize (CH x eq_refl).
+    destruct (chain_pins_bytes sha1 sha256 b64 ctl_view gunzip untar cr1 cr256 h x gc cg dh gd Hs M Hin NE Hd CH) as (E1 & E2 & E3 & E4).
+    split; [auto|]. split; [|auto].
+    exists (d_files (x_dat x)). split; [exact E4|]. split; [reflexivity|].
+    destruct CH as (_ & _ & _ & _ & _ & Fok). split; [exact Fok|]. split; [exact Inst|].
+    intros n b Hb. unfold install in Inst.
+    assert (forall g, In g (data_section (d_files (x_dat x))) -> In g (d_files (x_dat x))) as Sub.
+    { generalize (d_files (x_dat x)). induction l as [|a l IH]; simpl; [auto|].
+      destruct (hidden a); [intros g Hg; right; apply IH; exact Hg | auto]. }
+    destruct (install_files_sound lazy
+                (fun b0 => exists f, In f (data_section (d_files (x_dat x))) /\ f_kind f = FReg /\ f_body f = b0)
+                _ _ _ Inst) with (n := n) (b := b) as (f & If & Nf & Rf); [intros ? ? [] | | exact Hb |].
+    - intros f Hf K. exists f. auto.
+    - destruct Rf as [[K B]|[K (g & Ig & Kg & Bg)]].
+      + exists f. split; [apply Sub; exact If|]. auto.
+      + exists g. split; [apply Sub; exact Ig|]. split; [exact Kg|]. split; [exact Bg|].
+        right. exists f. split; [apply Sub; exact If|]. auto.
+  Qed.
+End EndToEnd.
+
+(* ---- concrete oracles for witnesses and examples ---------------------------------------- *)
 Definition idf (b : list N) : list N := b.
 Definition wit_b64 (s : string) : option (list N) :=
-  if String.eqb s "1" then Some [1]%N else if String.eqb s "2" then Some [2]%N else None.
-Definition wit_apk : apkfile :=
-  {| a_ctl := {| c_raw := [1]%N; c_desc := ""; c_datahash := [] |}; a_dat := {| d_raw := [1]%N; d_files := [] |} |}.
+  if String.eqb s "1" then Some [1]%N else if String.eqb s "2" then Some [2]%N else if String.eqb s "9" then Some [9]%N else None.
+(* member [9] starts with a .SIGN.* entry, every other member with .PKGINFO *)
+Definition wit_first (r : list N) : option string := if bytes_eqb r [9]%N then Some ".SIGN.RSA.k" else Some ".PKGINFO".
+Definition wit_ctl (r : list N) : option (string * list string) := Some ("", []).
+Definition wit_gunzip (r : list N) : option (list N) := Some r.
+(* tar [6] holds one regular file whose body [7] disagrees with its recorded checksum [8] *)
+Definition wit_untar (t : list N) : option (list dfile) :=
+  if bytes_eqb t [6]%N then Some [{| f_name := "f"; f_kind := FReg; f_body := [7]%N; f_sum := SumSome [8]%N; f_link := "" |}]
+  else Some [].
+Notation wit_expand_package := (expand_package idf idf wit_b64 wit_first wit_ctl wit_gunzip wit_untar).
+Notation wit_Chain := (Chain idf idf wit_b64 wit_ctl wit_gunzip wit_untar).
+
+(* the two earlier memo keys (fixed findings C05-F1 / C05-F2), as regression
+   witnesses: two different requests that the earlier key shapes identified, the
+   second of which a fresh expansion refuses, while the pair key keeps them apart *)
+Definition wit_apk : stream := {| s_members := [[1]; [1]]%N; s_trail := [] |}.
 Definition wit_h1 : handle := {| h_url := "a@b"; h_chk := "1" |}.
 Definition wit_h2 : handle := {| h_url := "a"; h_chk := "b@1" |}.     (* same URL++"@"++checksum as wit_h1 *)
 Definition wit_h3 : handle := {| h_url := "a@b"; h_chk := "2" |}.     (* same URL as wit_h1 *)
@@ -330,11 +803,82 @@ Lemma pair_key_separates :
   (h_url wit_h1 ++ "@" ++ h_chk wit_h1 = h_url wit_h2 ++ "@" ++ h_chk wit_h2)%string /\
   h_url wit_h1 = h_url wit_h3 /\
   exists r1 k1 m1,
-    expand_package idf idf wit_b64 [] (Some empty_cache) wit_h1 (Some wit_apk) = (r1, k1, m1) /\
+    wit_expand_package [] (Some empty_cache) wit_h1 (Some wit_apk) = (r1, k1, m1) /\
     (exists x, r1 = XOk x) /\
-    fst (fst (expand_package idf idf wit_b64 m1 k1 wit_h2 (Some wit_apk))) = XErr EVerify /\
-    fst (fst (expand_package idf idf wit_b64 m1 k1 wit_h3 (Some wit_apk))) = XErr EVerify.
+    fst (fst (wit_expand_package m1 k1 wit_h2 (Some wit_apk))) = XErr EVerify /\
+    fst (fst (wit_expand_package m1 k1 wit_h3 (Some wit_apk))) = XErr EVerify.
 Proof.
   split; [reflexivity|]. split; [reflexivity|]. eexists _, _, _. split; [vm_compute; reflexivity|].
   split; [eexists; reflexivity|]. split; vm_compute; reflexivity.
 Qed.
+
+(* fixed finding C05-F3 as a regression witness: two members, the first starting with a
+   .SIGN.* entry. The cut of today refuses the stream; the cut as it was before fix
+   3bc1979 ([expand_apk_with ... true], hypothetical now) took the first member for the
+   control section and the second for the data section, hashed it with SHA-1 instead of
+   SHA-256 and handed on a regular file whose body disagrees with its recorded checksum. *)
+Definition wit_sig2 : stream := {| s_members := [[9]; [6]]%N; s_trail := [] |}.
+Definition sha256' (b : list N) : list N := 0%N :: b.     (* any function other than the SHA-1 stand-in *)
+Lemma old_cut_unchecked :
+  sig2 wit_first wit_sig2 = true /\
+  expand_apk idf sha256' wit_first wit_ctl wit_gunzip wit_untar wit_sig2 = FErr EExpand /\
+  exists e, expand_apk_with idf sha256' wit_first wit_ctl wit_gunzip wit_untar true wit_sig2 = FOk e /\
+    c_raw (e_ctl e) = [9]%N /\ e_gz e = [6]%N /\
+    e_dh e = idf (e_gz e) /\ e_dh e <> sha256' (e_gz e) /\ check_sums idf (e_files e) = false.
+Proof.
+  split; [vm_compute; reflexivity|]. split; [vm_compute; reflexivity|]. eexists. split; [vm_compute; reflexivity|].
+  repeat split; try (vm_compute; reflexivity). vm_compute. discriminate.
+Qed.
+
+(* since fix 3bc1979 every stream of that shape is refused, whatever the handle says *)
+Lemma sig2_refused sha1 sha256 b64 first_name ctl_view gunzip untar k h s :
+  sig2 first_name s = true ->
+  (match k with Some kc => fst (cached_package b64 ctl_view gunzip untar kc h) | None => None end) = None ->
+  fst (expand_uncached sha1 sha256 b64 first_name ctl_view gunzip untar k h (Some s)) = XErr EExpand.
+Proof.
+  intros S2 Miss. unfold expand_uncached.
+  assert (expand_apk sha1 sha256 first_name ctl_view gunzip untar s = FErr EExpand) as E.
+  { unfold expand_apk, expand_apk_with. fold (cut first_name s). rewrite (cut_refuses_sig2 _ _ S2). reflexivity. }
+  destruct k as [kc|].
+  - destruct (cached_package b64 ctl_view gunzip untar kc h) as [x kc1]. simpl in Miss. subst x. rewrite E. reflexivity.
+  - rewrite E. reflexivity.
+Qed.
+
+(* without a cache: no hypothesis at all *)
+Lemma expand_package_no_cache_chain sha1 sha256 b64 first_name ctl_view gunzip untar m h served x k' m' :
+  expand_package sha1 sha256 b64 first_name ctl_view gunzip untar m None h served = (XOk x, k', m') ->
+  Chain sha1 sha256 b64 ctl_view gunzip untar h x.
+Proof.
+  intros H. unfold expand_package in H.
+  destruct (expand_uncached sha1 sha256 b64 first_name ctl_view gunzip untar None h served) as [r k1] eqn:E. inversion H; subst.
+  eapply (expand_uncached_chain sha1 sha256 b64 first_name ctl_view gunzip untar None); eauto; exact I.
+Qed.
+
+Lemma installed_bytes lazy x out n b :
+  install lazy x = Some out -> In (n, b) out ->
+  exists f, In f (data_section (d_files (x_dat x))) /\ f_name f = n /\
+    ((f_kind f = FReg /\ f_body f = b) \/
+     (f_kind f = FLink /\ exists g, In g (data_section (d_files (x_dat x))) /\ f_kind g = FReg /\ f_body g = b)).
+Proof.
+  intros H Hin.
+  eapply (install_files_sound lazy (fun b0 => exists g, In g (data_section (d_files (x_dat x))) /\ f_kind g = FReg /\ f_body g = b0));
+    [exact H | intros ? ? [] | intros g Hg K; exists g; auto | exact Hin].
+Qed.
+
+Lemma file_mismatch_aborts sha1 sha256 first_name ctl_view gunzip untar s u t fs f d :
+  cut first_name s = Some u -> gunzip (u_dat u) = Some t -> untar t = Some fs ->
+  In f fs -> f_kind f = FReg -> f_sum f = SumSome d -> d <> sha1 (f_body f) ->
+  expand_apk sha1 sha256 first_name ctl_view gunzip untar s = FErr ESums.
+Proof. intros Cu. eapply expand_apk_file_mismatch; [exact Cu | eapply cut_full; exact Cu]. Qed.
+
+Lemma install_paths x :
+  (forall out, install true x = Some out -> install false x = Some out) /\
+  (forall out, install false x = Some out -> install true x = None ->
+     exists f, In f (data_section (d_files (x_dat x))) /\
+       ((f_kind f = FReg /\ f_sum f = SumNone) \/ (f_kind f = FSym /\ forall d, f_sum f <> SumSome d))).
+Proof. split; [intros out; apply lazy_implies_streaming | intros out; apply streaming_only]. Qed.
+
+Lemma cache_hit_authentic sha1 sha256 b64 ctl_view gunzip untar k h x k' :
+  cache_ok sha1 sha256 gunzip untar k -> cached_package b64 ctl_view gunzip untar k h = (Some x, k') ->
+  Chain sha1 sha256 b64 ctl_view gunzip untar h x /\ cache_ok sha1 sha256 gunzip untar k'.
+Proof. intros. split; [eapply cached_package_chain; eauto | eapply cached_package_keeps_ok; eauto]. Qed.
